@@ -559,7 +559,15 @@ impl TransportManager {
             "dial remote peer",
         );
 
-        let transports = Self::supported_transports_addresses(&dial_addresses);
+        let mut transports = Self::supported_transports_addresses(&dial_addresses);
+
+        // Only transports that are installed can conclude the dial. Waiting in `Opening` for a
+        // transport that is not installed would wedge the peer forever.
+        transports.retain(|transport, _| self.transports.transports.contains_key(transport));
+        let dial_addresses = transports.values().flatten().cloned().collect::<Vec<_>>();
+        if dial_addresses.is_empty() {
+            return Err(Error::NoAddressAvailable(peer));
+        }
 
         // Dialing addresses will succeed because the `context.state.can_dial()` returned `Ok`.
         let result = context.state.dial_addresses(
